@@ -59,7 +59,7 @@ def label_of(p):
     return "%s/%s/%d%s" % (p[0], p[1], p[2], "+overrides" if p[3] else "")
 
 
-def one_run(iso, pn, nm, title, overrides=None):
+def one_run(iso, pn, nm, title, overrides=None, runner=None):
     import copy
     import numpy as np
     from src.scenarios.run_model_no_trade import ScenarioRunnerNoTrade
@@ -75,11 +75,16 @@ def one_run(iso, pn, nm, title, overrides=None):
             c, t, l = r.set_depending_on_option(opts)
             res = r.run_and_analyze_scenario(c, t, l, False, False, "", None, False, "world", "WOR", title=title)
         else:
-            out = ScenarioRunnerNoTrade().run_model_no_trade(title=title, create_pptx_with_all_countries=False, show_country_figures=False,
-                                                             show_map_figures=False, add_map_slide_to_pptx=False, scenario_option=opts,
-                                                             countries_list=[iso], return_results=True)
+            out = (runner or ScenarioRunnerNoTrade()).run_model_no_trade(title=title, create_pptx_with_all_countries=False, show_country_figures=False,
+                                                                         show_map_figures=False, add_map_slide_to_pptx=False, scenario_option=opts,
+                                                                         countries_list=[iso], return_results=True)
             res = list(out[3].values())[0]
     dg, parts = digest_result(res)
+    if iso != "WOR":
+        # everything the call returns belongs to the run's result: the population considered, the population fed and which countries it reports
+        parts["returned_aggregate"] = [repr(float(out[1])), repr(float(out[2]))]
+        parts["returned_countries"] = sorted(out[3].keys())
+        dg = common.digest([dg, parts["returned_aggregate"], parts["returned_countries"]])
     conv = {k: repr(v) for k, v in sorted(vars(Food.conversions).items())}
     return dg, parts, opts == before, common.digest(conv)
 
@@ -88,14 +93,22 @@ def seq_job(seq):
     """one history in one fresh process"""
     common.sandbox()
     out = []
+    shared = None
+    seq0 = seq
+    if seq and seq[0] == "shared":
+        # the same runner object serves every run of the history (as run_many_options and the plotting scripts use it)
+        from src.scenarios.run_model_no_trade import ScenarioRunnerNoTrade
+        seq = seq[1]
+        with common.quiet():
+            shared = ScenarioRunnerNoTrade()
     for i, idx in enumerate(seq):
         iso, pn, nm, ov = POOL[idx]
         try:
-            dg, parts, unmodified, conv = one_run(iso, pn, nm, "c14_%d_%s" % (os.getpid(), i), ov)
+            dg, parts, unmodified, conv = one_run(iso, pn, nm, "c14_%d_%s" % (os.getpid(), i), ov, runner=shared if iso != "WOR" else None)
             out.append({"run": idx, "digest": dg, "parts": parts, "options_unmodified": unmodified, "globals": conv})
         except BaseException as e:
             out.append({"run": idx, "error": repr(e)[:200]})
-    return {"seq": list(seq), "runs": out}
+    return {"seq": list(seq), "runs": out, "shared_runner": shared is not None}
 
 
 BATCH = ["ALB", "AUS", "LUX", "SLV", "USA"]       # ALB and SLV trigger the model's rewrite of known-bad options
@@ -202,7 +215,10 @@ def alone_subprocess(idx, hashseed):
 def run(tier, seed):
     d = 2 if tier == "quick" else 3
     seqs = [s for n in range(1, d + 1) for s in itertools.product(range(len(POOL)), repeat=n)]
-    res = common.pmap(seq_job, seqs, fresh_process_per_job=True)
+    nonwor = [i for i, p in enumerate(POOL) if p[0] != "WOR"]
+    sh = nonwor[:4] if tier == "quick" else nonwor
+    shared_seqs = [("shared", s) for s in itertools.product(sh, repeat=2)] + ([("shared", s) for s in itertools.product(nonwor[:3], repeat=3)] if tier == "thorough" else [])
+    res = common.pmap(seq_job, seqs + shared_seqs, fresh_process_per_job=True)
     from concurrent.futures import ThreadPoolExecutor
     hashseeds = (1, 12345) if tier == "quick" else (1, 12345, 987654321)
     with ThreadPoolExecutor(8) as ex:
@@ -210,7 +226,7 @@ def run(tier, seed):
     vs = []
     ref = {}
     for r in res:
-        if len(r["seq"]) == 1:
+        if len(r["seq"]) == 1 and not r.get("shared_runner"):
             ref[r["seq"][0]] = r["runs"][0]
     n_runs = 0
     states = set()
@@ -220,8 +236,8 @@ def run(tier, seed):
             idx = run["run"]
             label = label_of(POOL[idx])
             hist = [label_of(POOL[i]) for i in r["seq"][:pos]]
-            key = {"run": label, "history": " -> ".join(hist) or "(alone)"}
-            rp = {"seq": r["seq"][:pos + 1]}
+            key = {"run": label, "history": (" -> ".join(hist) or "(alone)") + (" [one runner object for all]" if r.get("shared_runner") else "")}
+            rp = {"seq": r["seq"][:pos + 1], "shared_runner": bool(r.get("shared_runner"))}
             if "error" in run:
                 if "error" not in ref.get(idx, {}):
                     vs.append(violation("run_fails_after_history", key, "%s fails after %s: %s" % (label, hist, run["error"]), rp))
@@ -302,7 +318,8 @@ def run(tier, seed):
            "batches": len(subsets), "batch_results_compared_with_single_calls": compared,
            "distinct_outcomes": len({run.get("digest") for r in res for run in r["runs"]}),
            "runs": n_runs, "histories": len(seqs),
-           "bound": {"depth": "every ordered sequence of length <= %d over the pool (repeats allowed), one fresh process each" % d,
+           "bound": {"shared runner object": "%d further histories (every ordered pair over %d non-world runs%s) in which ONE ScenarioRunnerNoTrade object serves every run; the digest covers the returned aggregate and the countries reported" % (len(shared_seqs), len(sh), ", every ordered triple over 3" if tier == "thorough" else ""),
+                     "depth": "every ordered sequence of length <= %d over the pool (repeats allowed), one fresh process each" % d,
                      "pool": [label_of(p) for p in POOL], "alone": "every pool run alone under PYTHONHASHSEED in %s" % (list(hashseeds),),
                      "deviation_histories": "for %s: the %s/%d run after the same country was run with each of its %d deviations (every single option-family deviation + every column family of the country table halved through the custom-parameter mechanism; thorough: and each deviation run after the base run), one fresh process each" % (
                          list(dev_isos), DEV_PRESET, DEV_NMONTHS, len(menu)),
@@ -336,7 +353,8 @@ def replay(rp):
                 if a and a["digest"] != b["digest"]:
                     vs.append(violation("result_independent_of_history", {"run": name}, "differs inside the batch: %s vs %s" % (a["parts"].get("headline"), b["parts"].get("headline")), rp))
         return vs
-    r = common.pmap(seq_job, [tuple(rp["seq"]), (rp["seq"][-1],)], fresh_process_per_job=True)
+    first = ("shared", tuple(rp["seq"])) if rp.get("shared_runner") else tuple(rp["seq"])
+    r = common.pmap(seq_job, [first, (rp["seq"][-1],)], fresh_process_per_job=True)
     a, b = r[0]["runs"][-1], r[1]["runs"][0]
     vs = []
     if a.get("digest") != b.get("digest") or "error" in a:
